@@ -593,7 +593,18 @@ def install_concurrency(it):
 
         def run_in_executor(it3, aa, kk):
             fn, rest = aa[1], aa[2:]
-            return Awaitable(lambda it4: it4.call(fn, list(rest), {}), "run_in_executor")
+
+            def on_await(it4):
+                r = it4.call(fn, list(rest), {})
+                if it4.env.get("executor_cancellable"):
+                    # the awaiting coroutine is a task that may be cancelled while the executor thread works: the
+                    # thread runs to its end regardless, the task gets CancelledError at this await
+                    kk2 = it4.ctx.choose([z3.BoolVal(True), z3.BoolVal(True)], labels=["completed", "cancelled-while-in-executor"], site="run_in_executor")
+                    if kk2 == 1:
+                        raise PyRaise(ExcVal(asyncio.CancelledError, (), site="run_in_executor"))
+                return r
+
+            return Awaitable(on_await, "run_in_executor")
 
         def create_task(it3, aa, kk):
             coro = aa[0]
